@@ -37,6 +37,24 @@ Proof. exact (compile_then_commit_state gen_exempt). Qed.
 Theorem C06_no_redeclare : forall l, no_redeclare (sent (run_ops gen_exempt conn0 l)).
 Proof. exact (no_redeclare_any_history gen_exempt). Qed.
 
+(* operations queued between compile() and commit_subroutine() belong to the next
+   subroutine: committing the pre-compiled one must not touch their pending arrays /
+   registers (nor must instantiate) *)
+Theorem C06_ops_between_compile_and_commit_go_to_next : forall c v mid1 mid2,
+  Forall queue_op mid1 -> Forall queue_op mid2 ->
+  let pre := apply_op gen_exempt (run_ops gen_exempt (apply_op gen_exempt (run_ops gen_exempt
+               (apply_op gen_exempt c SCompile) mid1) (SInstantiate v)) mid2) SCommit in
+  let dir := run_ops gen_exempt (run_ops gen_exempt (apply_op gen_exempt c SFlush) mid1) mid2 in
+  conn_state pre = conn_state dir /\ pop_pending gen_exempt pre = pop_pending gen_exempt dir.
+Proof. exact (ops_between_compile_and_commit_go_to_next gen_exempt). Qed.
+
+Example C06_between_nonvacuous :
+  let m := SMeasArr ("meas", [OReg 0; OReg 0]) in
+  let c := run_ops gen_exempt conn0 [SGate ("rot_x", [OReg 0; OTmpl "a"; OInt 4]); m] in
+  let pre := run_ops gen_exempt c [SCompile; m; SInstantiate (fun _ => 3%Z); SMeasReg 0 ("meas", [OReg 0; OReg 0]); SCommit; SFlush] in
+  views_eqb (map sub_view (sent pre)) [([0], [0], []); ([1], [1], [0])]%nat = true.
+Proof. vm_compute. reflexivity. Qed.
+
 (* with the NV transpile pass (simulation mode): filling the rotation immediates and
    transpiling commute, for ALL programs of the C08 transpiler model at the regenerated
    decomposition table.  A Template is represented by the (negative) integer standing for
@@ -104,4 +122,5 @@ Proof. vm_compute. reflexivity. Qed.
 Print Assumptions C06_instantiate_commutes.
 Print Assumptions C06_compile_then_commit_state.
 Print Assumptions C06_no_redeclare.
+Print Assumptions C06_ops_between_compile_and_commit_go_to_next.
 Print Assumptions C06_transpile_instantiate_commute.
